@@ -45,6 +45,31 @@ def run(res):
     st = vlib.correspond(res, "label", lcases, impl, model, lambda c: c.split("\t")[:2], lambda c, a: True, oracle)
     if st["disagreements"] == 0 and st["oracle_failures"] == 0:
         res.discharged.append(name2)
+    # set summaries: when set_match reports a failure, the `N element(s)` it shows must be the size of the collection (the real
+    # support function on the matrices of C10: exhaustive small ones and random larger ones, with and without `..`)
+    import prop_c10
+    name3 = "direct:set summary `N element(s)` is the size of the collection"
+    res.obligations.append(name3)
+    mcases, _ = prop_c10.gen_cases(res.tier, res.seed)
+    mimpl = vlib.run_harness("rt", mcases)
+    sum_bad = 0
+    sum_seen = 0
+    for line, o in zip(mcases, mimpl):
+        if not o.startswith("fail "):
+            continue
+        n, rest, rows = prop_c10.parse_case(line)
+        shown = unhx(o.split(" ")[1]).decode("utf-8", "replace")
+        sum_seen += 1
+        if shown != "%d element(s)" % n:
+            sum_bad += 1
+            if sum_bad <= 2:
+                res.violation("failing-input", "a failing set pattern over %d element(s) (%d patterns%s) is summarised as %r"
+                              % (n, len(rows), ", with `..`" if rest else "", shown),
+                              {"case_line": line, "matrix": ["".join("1" if b else "0" for b in r) for r in rows], "n_elements": n, "rest": rest})
+    res.streams["set-summaries"] = {"matrices": len(mcases), "failures_with_summary": sum_seen, "wrong_summaries": sum_bad}
+    failing += sum_bad
+    if not sum_bad:
+        res.discharged.append(name3)
     semprops.finish(res, "C05", cases, bad, sem_dis, na, nc, failing, texts,
                     "the shared semantic corpus (see C01): siblings share types and differ in content (Vec<i32>, Vec<String>, repeated "
                     "struct types, maps of equal value types); Debug forms include quotes, nested structs, tuples, vectors, maps; the "
@@ -54,4 +79,15 @@ def run(res):
 
 
 def replay(res, path):
+    import json
+    v = json.load(open(path))
+    if "case_line" in v and "n_elements" in v:
+        ok, out = vlib.build_harness("rt")
+        if not ok:
+            raise vlib.CheckError("harness rt does not build: " + out[-1500:])
+        o = vlib.run_harness("rt", [v["case_line"]])[0]
+        shown = unhx(o.split(" ")[1]).decode("utf-8", "replace") if o.startswith("fail ") else None
+        bad = shown is not None and shown != "%d element(s)" % v["n_elements"]
+        print("impl:", o, "->", "violation" if bad else "property holds on this input")
+        return 1 if bad else 0
     return semprops.replay_case(path)
